@@ -324,6 +324,36 @@ func runC18(c *eng.Ctx) {
 		c.Check(n >= 1, "accepting-returns-found", nil, f, "the handler has an accepting exit", "")
 	})
 
+	// ---- 4b2. placement candidates are the nodes the REPOSITORY lists as alive at that moment ---------------------------------------------
+	c.Rule("PROV", "coordinator/master.storageCluster.GetLiveNodes{from the repository}", func() {
+		f := c.Fn("coordinator/master.storageCluster.GetLiveNodes")
+		list := c.One(f, invokeOn(".repo", "List"), "repo.List(live nodes path)")
+		n := 0
+		for i, r := range eng.SuccessReturns(f) {
+			v := eng.RetVal(r, 0)
+			if eng.IsNilConst(v) {
+				continue
+			}
+			n++
+			fromRepo := eng.DominatedBy(f, r, []eng.Site{list}, nil)
+			fromState := eng.DependsOnField(v, "models.StorageState.LiveNodes") || eng.DependsOnField(v, "coordinator/master.storageCluster.state")
+			c.Check(fromRepo && !fromState, fmt.Sprintf("listed-from-the-repository[%d]", i), r, f,
+				"the candidates for a new assignment are read from the repository's live-node keys: the in-memory live set is maintained by another watcher's events and may still contain a node whose lease has expired",
+				"returns "+p.Desc(v))
+		}
+		c.Check(n >= 1, "returns-nodes", nil, f, "GetLiveNodes returns a node list", "")
+	})
+	// ---- 4b3. dropping a database: the in-memory state is cleaned and published whatever the repository says --------------------------------
+	c.Rule("ORDER", smgrT+".onDatabaseCfgDelete{state cleaned and synced before the assignment key is removed}", func() {
+		f := c.Fn(smgrT + ".onDatabaseCfgDelete")
+		okOrderInFn(c, f, eng.CallTo(smgrT+".syncState"), invokeOn(".storage", "DropDatabaseAssignment"), "syncState", "storage.DropDatabaseAssignment")
+		drop := c.One(f, invokeOn("", "DropDatabase"), "state.DropDatabase(name)")
+		for i, s := range c.Some(f, invokeOn(".storage", "DropDatabaseAssignment"), "storage.DropDatabaseAssignment") {
+			c.Check(eng.DominatedBy(f, s.Instr, []eng.Site{drop}, nil), fmt.Sprintf("memory-first[%d]", i), s.Instr, f,
+				"the deletion event is delivered once: the database leaves the in-memory state (and that state is published) before the one step that can fail - removing the persisted assignment", "")
+		}
+	})
+
 	// ---- 4c. "no assignment yet" is decided by the repository's answer, not by any failing read ------------------------------------
 	c.Rule("ERRFLOW", smgrT+".GetShardAssign{errors are the callees' errors}", func() {
 		errorsOnlyFrom(c, smgrT+".GetShardAssign", eng.Any(invokeOn(".masterRepo", "Get"), eng.AnyCallTo("github.com/lindb/common/pkg/encoding.JSONUnmarshal")), "masterRepo.Get / JSONUnmarshal")
